@@ -5,7 +5,7 @@ package main
 //	c11 kw <keyword>     impl: "<documented> <strictRejects>"   behavioural: {kw: sample} through FromJSONSchema(StrictMode)
 //	c11 conv <D>         impl: "<nonstrict> <strict>"            conversion outcome ok|error|panic without / with StrictMode
 //	c11 inst <D> <J>     impl: "<P> <V> <R>"
-//	    P = verdict of FromJSONSchema(doc).ParseAny(x), x decoded from JSON text by encoding/json (0 also for a panic)
+//	    P = verdict of FromJSONSchema(doc).ParseAny(x), x decoded from JSON text by encoding/json ("!" when ParseAny panics)
 //	    V = independent validator (kaptinlin/jsonschema, format assertion on) on the ORIGINAL document
 //	    R = independent validator on ToJSONSchema(FromJSONSchema(doc)) (round trip; "-" when that conversion fails)
 //	    The property on the implementation alone: P = V and R = V.
@@ -20,6 +20,8 @@ package main
 //	     | ( additionalProperties D ) | ( anyOf D* ) | ( oneOf D* ) | ( allOf D* ) | ( not D ) | ( format STR GOOD* )
 //	     | ( ref D ) | ( other STR )
 //	PAT ::= ( pre STR ) | ( suf STR ) | ( has STR ) | noUp | noLow       Q in quarters, P ::= n | t | f | qZ | s:…
+//	In a ROOT document whose only keyword is const or enum, P may also be an array ( a J* ) or an object ( o ( STR J )* )
+//	(members.go; the Lean side has these members as `Json` values: Model/FromJson.lean `fromEnumJ` / `fromConstJ`).
 //	`( ref D )` is written into the document as {"$ref":"#/$defs/dK"} with D hoisted into the root's $defs.
 //	`( format NAME GOOD* )`: GOOD = the strings of this case's instance universe that satisfy the format
 //	(format sample pool, checked at start-up against gozod's dedicated schema and the validator).
@@ -331,21 +333,6 @@ func kwT(t string) KW             { return KW{Name: "type", Strs: []string{t}} }
 func node(kws ...KW) *D           { return &D{Kws: kws} }
 func bschema(b bool) *D           { return &D{Bool: &b} }
 
-func (g *gen) prim() *J {
-	switch g.r.Intn(8) {
-	case 0, 1, 2:
-		return jStr(hx.Pick(g.r, words))
-	case 3, 4:
-		return jInt(int64(g.r.Intn(4)))
-	case 5:
-		return jQ(int64(2 + 4*g.r.Intn(3)))
-	case 6:
-		return jBool(g.r.Bool())
-	default:
-		return jNull()
-	}
-}
-
 func (g *gen) stringKws() []KW {
 	var ks []KW
 	if g.r.Chance(50) {
@@ -507,7 +494,7 @@ func (g *gen) doc(d int) *D {
 		t := hx.Pick(g.r, ts)
 		out = node(append([]KW{kwT(t)}, g.typed(t, d)...)...)
 	case k < 62:
-		n := 2 + g.r.Intn(2)
+		n := 1 + g.r.Intn(3) // a one-element type array is a class of its own
 		seen := map[string]bool{}
 		var ts []string
 		for len(ts) < n {
@@ -525,17 +512,16 @@ func (g *gen) doc(d int) *D {
 		}
 		out = node(dedupKws(kws)...)
 	case k < 68:
-		out = node(KW{Name: "const", Prims: []*J{g.prim()}})
+		out = node(KW{Name: "const", Prims: []*J{g.scalar()}})
 	case k < 76:
 		n := 1 + g.r.Intn(3)
-		var ps []*J
-		allStr := g.r.Chance(50)
-		for i := 0; i < n; i++ {
-			p := g.prim()
-			if allStr {
-				p = jStr(hx.Pick(g.r, words))
+		ps := g.memberList(n, false)
+		if g.r.Chance(35) { // all strings (the Enum path), incl. strings that spell other JSON values
+			for i := range ps {
+				if ps[i].T != "s" {
+					ps[i] = jStr(hx.Pick(g.r, memberWords))
+				}
 			}
-			ps = append(ps, p)
 		}
 		out = node(KW{Name: "enum", Prims: ps})
 	case k < 83:
@@ -655,21 +641,20 @@ func (g *gen) cands(d *D, depth int) []*J {
 		case "multipleOf":
 			out = append(out, jQ(k.N), jQ(2*k.N), jQ(k.N+1), jQ(0))
 		case "const", "enum":
-			out = append(out, k.Prims...)
-			out = append(out, jStr("nope"), jInt(7))
+			out = append(out, memberCands(k.Prims)...)
 		case "items", "prefixItems", "minItems", "maxItems":
 			// handled below (arrays are built once)
 		case "anyOf", "oneOf", "allOf":
 			for _, m := range k.Subs {
 				for i, c := range g.cands(m, depth+1) {
-					if i < 9 {
+					if i < subLimit(m, 9) {
 						out = append(out, c)
 					}
 				}
 			}
 		case "ref", "not":
 			for i, c := range g.cands(k.Sub, depth+1) {
-				if i < 12 {
+				if i < subLimit(k.Sub, 12) {
 					out = append(out, c)
 				}
 			}
@@ -712,7 +697,7 @@ func (g *gen) cands(d *D, depth int) []*J {
 		}
 		for i := range pc {
 			for j, c := range pc[i] {
-				if j > 0 && j < 4 {
+				if j > 0 && j < subLimit(prefix.Subs[i], 4) {
 					b := build(len(pc))
 					b.A[i] = c
 					out = append(out, b)
@@ -720,7 +705,7 @@ func (g *gen) cands(d *D, depth int) []*J {
 			}
 		}
 		for j, c := range rc {
-			if j > 0 && j < 5 {
+			if j > 0 && (j < 5 || (items != nil && j < subLimit(items.Sub, 5))) {
 				b := build(len(pc) + 1)
 				b.A[len(pc)] = c
 				out = append(out, b)
@@ -750,7 +735,7 @@ func (g *gen) cands(d *D, depth int) []*J {
 		if props != nil {
 			for _, p := range props.Props {
 				for j, c := range g.cands(p.D, depth+1) {
-					if j > 0 && j < 5 {
+					if j > 0 && j < subLimit(p.D, 5) {
 						out = append(out, base.without(p.K).with(p.K, c))
 					}
 				}
@@ -759,7 +744,7 @@ func (g *gen) cands(d *D, depth int) []*J {
 		out = append(out, base.with("zz", jInt(1)), base.with("zz", jStr("x")))
 		if addl != nil {
 			for j, c := range g.cands(addl.Sub, depth+1) {
-				if j < 4 {
+				if j < subLimit(addl.Sub, 4) {
 					out = append(out, base.with("zz", c), jObj().with("zz", c))
 				}
 			}
@@ -769,6 +754,19 @@ func (g *gen) cands(d *D, depth int) []*J {
 		out = append(out, jStr("mm"), jQ(2))
 	}
 	return append(out, generic...)
+}
+
+// subLimit: how many of a sub-schema's candidates a parent position uses. A const/enum sub-schema gets all its members
+// and their relatives (members.go), so that a collision between two members shows below properties / items / anyOf too.
+func subLimit(d *D, base int) int {
+	if d != nil && d.Bool == nil {
+		for _, name := range []string{"const", "enum"} {
+			if k := d.get(name); k != nil {
+				return base + 4*len(k.Prims) + 2
+			}
+		}
+	}
+	return base
 }
 
 // ---------------------------------------------------------------- strict-mode keyword table
@@ -819,7 +817,7 @@ func intOnly(d *D) (ok bool, sawInt bool) {
 			types = k.Strs
 		case "const", "enum":
 			for _, p := range k.Prims {
-				if p.T == "q" {
+				if p.T == "q" || p.composite() {
 					return false, false
 				}
 			}
@@ -933,6 +931,10 @@ func corpus() []*D {
 		node(kwT("number"), kwN("maximum", 8), kwN("exclusiveMaximum", 12), kwN("minimum", 0), kwN("exclusiveMinimum", 0)),
 		node(kwT("integer"), kwN("minimum", 8), kwN("exclusiveMinimum", 8)),
 		node(kwT("integer"), kwN("maximum", 8), kwN("exclusiveMaximum", 8)),
+		node(KW{Name: "enum", Prims: []*J{jQ(10), jStr("2.5"), jNull(), jStr("null")}}),
+		node(KW{Name: "enum", Prims: []*J{jStr("false"), jBool(false), jStr("")}}),
+		node(KW{Name: "enum", Prims: []*J{jStr("[2,[]]"), jArr(jInt(2), jArr()), jObj().with("a", jInt(1)), jStr("{\"a\":1}")}}),
+		node(KW{Name: "const", Prims: []*J{jObj().with("a", jInt(1)).with("b", jArr())}}),
 	}
 }
 
@@ -961,6 +963,13 @@ func main() {
 	docs := corpus()
 	for i := 0; i < n; i++ {
 		docs = append(docs, g.doc(2))
+		if i%8 == 0 { // root const / enum documents whose members may be arrays and objects
+			if g.r.Chance(30) {
+				docs = append(docs, node(KW{Name: "const", Prims: []*J{g.compositeVal(2)}}))
+			} else {
+				docs = append(docs, node(KW{Name: "enum", Prims: g.memberList(1+g.r.Intn(3), true)}))
+			}
+		}
 	}
 	seen := map[string]bool{}
 	panics, skipped := 0, 0
@@ -980,6 +989,9 @@ func main() {
 		}
 		for _, k := range d.Kws {
 			out.Count("kw:" + k.Name)
+			if k.Name == "const" || k.Name == "enum" {
+				out.Count("members:" + memberClass(k.Prims))
+			}
 		}
 		o1, z := outcome(sch, false)
 		o2, _ := outcome(sch, true)
@@ -1017,11 +1029,14 @@ func main() {
 			if pm != "" {
 				panics++
 			}
-			p := b01(pm == "" && perr == nil)
+			p := b01(perr == nil)
+			if pm != "" {
+				p = "!"
+			}
 			vv := b01(sch.ValidateJSON([]byte(js)).IsValid())
 			r := "-"
-			if hasKnownFormat(d) {
-				r = "~" // ToJSONSchema of the dedicated format schemas is outside the model (C07 limits)
+			if hasKnownFormat(d) || hasCompositeMember(d) {
+				r = "~" // ToJSONSchema of the dedicated format schemas / of literals holding arrays or objects is outside the model
 			} else if rt != nil {
 				r = b01(rt.ValidateJSON([]byte(js)).IsValid())
 			}
